@@ -3,7 +3,7 @@
    a filter and a body are chosen (all by Next actions, so that the TLC workers share the enumeration),
    then the keep loop and the expansion stack machine run.
 
-   Two families (CONSTANT Family), each exhaustive within its alphabet:
+   Three families (CONSTANT Family), each exhaustive within its alphabet:
 
    "graph"  three sequence definitions SA, SB, SC, each (%t) a, with every body of 1..Width[n] elements
             over {RZ(%t) a, SA(%t) a, SB(%t+1) a, SC(2*%t) a}: every reference graph on three nodes with
@@ -19,11 +19,23 @@
             base gates, an undefined gate name, a non-sequence definition and a non-gate instruction, which
             must all pass through untouched.  x all 8 filters over {SA, SB, MG} (quick tier: see FilterLevel).
 
+   "edge"   degenerate sizes.  SE a with an EMPTY body or one base gate; ST(%t, %s) a b (two parameters, two
+            formal qubits) with 0..W2 elements over {SE a, SE b, RZ(%s) b, CPHASE(%t-%s) b a}; SU a with
+            0..W3 elements over {SE a, ST(3, 4) a a, SU a, H a}: definitions whose expansion is empty
+            directly (SE), only transitively (a body of nothing but empty sequences) or partly; x all 8
+            filters x bodies in which the invocation is the only / first / last instruction, two invocations
+            are consecutive, and the body with no instruction at all.  (Empty bodies cannot be written in
+            Quil text; they are built through DefGateSequence::try_new(qubits, vec![]).)
+            The graph family (third definition) and the subst family (SB) also include the empty body.
+
+   Sizes covered across the families: definition bodies of 0 / 1 / 2 elements; 0 / 1 / 2 parameters; 1 / 2
+   formal qubits (0 is rejected by DefGateSequence::try_new); program bodies of 0 / 1 / 2 / 3 instructions.
+
    Excluded by construction (not meaningful input of the property): definitions with duplicate formal
    names, element gates on fixed qubits (rejected by DefGateSequence::try_new), gates without qubits
    (rejected by Gate::new). *)
 EXTENDS GateSequence, Json
-CONSTANTS Family,      \* "graph" | "subst"
+CONSTANTS Family,      \* "graph" | "subst" | "edge"
           W1, W2, W3,  \* max number of elements of the 1st, 2nd, 3rd definition (W3 unused in "subst")
           BodyLevel,   \* 1: the basic bodies, 2: more
           FilterLevel  \* 2: all 8 filters for every table; 1: all 8 filters when the first definition has one
@@ -37,12 +49,15 @@ Q(n) == Fixed(n)
 N(v) == Num(v)
 
 SeqsUpTo(S, k) == UNION {[1..m -> S] : m \in 1..k}
+SeqsFrom0(S, k) == {<<>>} \cup SeqsUpTo(S, k)
 
 \* ---- family "graph"
 GElems == {Gate("RZ", <<pt>>, <<qa>>, <<>>), Gate("SA", <<pt>>, <<qa>>, <<>>),
            Gate("SB", <<Inf("+", pt, N("1"))>>, <<qa>>, <<>>), Gate("SC", <<Inf("*", N("2"), pt)>>, <<qa>>, <<>>)}
 GNames == <<"SA", "SB", "SC">>
-GDefChoices(n) == {SeqDef(GNames[n], <<"t">>, <<"a">>, gs) : gs \in SeqsUpTo(GElems, Width[n])}
+\* the third definition may also be empty
+GDefChoices(n) == {SeqDef(GNames[n], <<"t">>, <<"a">>, gs) :
+                      gs \in (IF n = 3 THEN SeqsFrom0(GElems, Width[n]) ELSE SeqsUpTo(GElems, Width[n]))}
 GBasic == {<<Gate("SA", <<N("3")>>, <<Q(0)>>, <<>>)>>}
 GMore  == {<<Gate("X", <<>>, <<Q(0)>>, <<>>), Gate("SB", <<N("3")>>, <<Q(1)>>, <<>>),
              Gate("SA", <<N("4")>>, <<Q(0)>>, <<>>)>>,
@@ -69,7 +84,7 @@ SBElems == {Gate("CNOT", <<>>, <<qb, qa>>, <<>>),                              \
             Gate("UG", <<N("7")>>, <<qa, qb>>, <<>>)}                          \* undefined name: a base gate
 SDefChoices(n) ==
   CASE n = 1 -> {SeqDef("SA", <<"t">>, <<"a">>, gs) : gs \in SeqsUpTo(SAElems, Width[1])}
-    [] n = 2 -> {SeqDef("SB", <<>>, <<"a", "b">>, gs) : gs \in SeqsUpTo(SBElems, Width[2])}
+    [] n = 2 -> {SeqDef("SB", <<>>, <<"a", "b">>, gs) : gs \in SeqsFrom0(SBElems, Width[2])}
     [] n = 3 -> {OtherDef("MG", <<>>)}
 SSingles == {Gate("SA", <<N("3")>>, <<Q(0)>>, <<>>),
              Gate("SB", <<>>, <<Q(0), Q(1)>>, <<>>),
@@ -90,10 +105,30 @@ SBodies == {<<x>> : x \in SSingles}
                        <<Gate("SA", <<N("3")>>, <<Q(0)>>, <<>>), Other("NOP"), Gate("SA", <<>>, <<Q(0)>>, <<>>)>>})
 SFilterNames == {"SA", "SB", "MG"}
 
+\* ---- family "edge"
+ps == Var("s")
+ETElems == {Gate("SE", <<>>, <<qa>>, <<>>), Gate("SE", <<>>, <<qb>>, <<>>),
+            Gate("RZ", <<ps>>, <<qb>>, <<>>), Gate("CPHASE", <<Inf("-", pt, ps)>>, <<qb, qa>>, <<>>)}
+EUElems == {Gate("SE", <<>>, <<qa>>, <<>>), Gate("ST", <<N("3"), N("4")>>, <<qa, qa>>, <<>>),
+            Gate("SU", <<>>, <<qa>>, <<>>), Gate("H", <<>>, <<qa>>, <<>>)}
+EDefChoices(n) ==
+  CASE n = 1 -> {SeqDef("SE", <<>>, <<"a">>, gs) : gs \in {<<>>, <<Gate("H", <<>>, <<qa>>, <<>>)>>}}
+    [] n = 2 -> {SeqDef("ST", <<"t", "s">>, <<"a", "b">>, gs) : gs \in SeqsFrom0(ETElems, Width[2])}
+    [] n = 3 -> {SeqDef("SU", <<>>, <<"a">>, gs) : gs \in SeqsFrom0(EUElems, Width[3])}
+ESE(q) == Gate("SE", <<>>, <<Q(q)>>, <<>>)
+ESU(q) == Gate("SU", <<>>, <<Q(q)>>, <<>>)
+EST(q, r) == Gate("ST", <<N("5"), N("6")>>, <<Q(q), Q(r)>>, <<>>)
+EX(q) == Gate("X", <<>>, <<Q(q)>>, <<>>)
+EBodies == {<<>>, <<ESE(0)>>, <<ESU(2)>>, <<EST(0, 1)>>,              \* no instruction; the only instruction
+            <<ESE(0), EX(1)>>, <<EX(1), ESE(0)>>,                      \* first; last
+            <<ESE(0), ESU(1)>>,                                        \* two consecutive invocations
+            <<ESU(1), EST(1, 0), ESE(2)>>}                             \* three consecutive, the last one empty
+EFilterNames == {"SE", "ST", "SU"}
+
 NDefs == 3
-DefChoices(n) == IF Family = "graph" THEN GDefChoices(n) ELSE SDefChoices(n)
-Bodies == IF Family = "graph" THEN GBodies(defs) ELSE SBodies
-FilterNames == IF Family = "graph" THEN GFilterNames ELSE SFilterNames
+DefChoices(n) == CASE Family = "graph" -> GDefChoices(n) [] Family = "subst" -> SDefChoices(n) [] Family = "edge" -> EDefChoices(n)
+Bodies == CASE Family = "graph" -> GBodies(defs) [] Family = "subst" -> SBodies [] Family = "edge" -> EBodies
+FilterNames == CASE Family = "graph" -> GFilterNames [] Family = "subst" -> SFilterNames [] Family = "edge" -> EFilterNames
 
 FilterChoices == IF FilterLevel >= 2 \/ Len(defs[1].gates) < 2 THEN SUBSET FilterNames
                  ELSE {FilterNames, {defs[1].name}}
@@ -112,7 +147,7 @@ Spec == Init /\ [][Next]_vars
 GenStackDiscipline == phase # "gen" => StackDiscipline
 GenDepthBounded == phase # "gen" => DepthBounded
 
-FilterSeq == LET isIn(n) == n \in filter IN SelectSeq(<<"MG", "SA", "SB", "SC">>, isIn)
+FilterSeq == LET isIn(n) == n \in filter IN SelectSeq(<<"MG", "SA", "SB", "SC", "SE", "ST", "SU">>, isIn)
 SetToSeq(S) == LET isIn(n) == n \in S IN
                SelectSeq(<<"Cyclic", "GateModifiersUnsupported", "NonFixedQubitArgument", "ParameterCount", "QubitCount">>, isIn)
 
